@@ -1,5 +1,10 @@
 package main
 
+import (
+	"os"
+	"strings"
+)
+
 // Which violation kinds each property's check reports. A run is evaluated with
 // every oracle; kinds outside the property under check are counted as
 // out_of_scope in the evidence and not reported by this check.
@@ -15,9 +20,9 @@ var claims = map[string][]string{
 	"C09": {"watchlist-mismatch", "wrong-error", "lost-event", "phantom-event"},
 	"C10": {"spurious-error", "overflow-not-reported", "dead-after-overflow"},
 	"C11": {"renamed-from-mismatch"},
-	"C12": {"kernel-mark-orphan", "kernel-mark-missing", "table-size"},
-	"C13": {"fd-leak", "task-leak"},
-	"C14": {"cap-mismatch", "stream-divergence", "lost-event", "phantom-event", "order"},
+	"C12": {"kernel-mark-orphan", "kernel-mark-missing", "table-size", "foreign-watch"},
+	"C13": {"fd-leak", "task-leak", "foreign-watch"},
+	"C14": {"cap-mismatch", "stream-divergence", "lost-event", "phantom-event", "order", "foreign-watch"},
 	"C19": {"lost-event", "phantom-event", "name-mismatch", "order", "watchlist-mismatch", "renamed-from-mismatch"},
 }
 
@@ -26,14 +31,63 @@ func claimsOf(p string) map[string]bool {
 	for _, k := range claims[p] {
 		m[k] = true
 	}
+	if extra := os.Getenv("VERIF_DEBUG_CLAIM"); extra != "" {
+		// debugging aid: additionally report the listed kinds (never set by registered commands)
+		for _, k := range strings.Split(extra, ",") {
+			m[k] = true
+		}
+	}
 	return m
 }
 
 // generate produces the scenario of run i for a property.
 func generate(prop, tier string, seed uint64, run int) *Scenario {
 	allShapes := []int{0, 0, 1, 1, 2, 3, 4}
+	pick := int(seed>>7) % 100
 	switch prop {
-	default:
-		return genMix(prop, seed, run, mixOpts{lagfree: 0.3, apiChurn: 0.12, shapes: allShapes, overflow: 0.1, maxOps: 30, watchFiles: 0.3, worldTasks: 2})
+	case "C01":
+		return genMix(prop, seed, run, mixOpts{lagfree: 0.3, apiChurn: 0.12, shapes: allShapes, overflow: 0.12, maxOps: 36, watchFiles: 0.3, worldTasks: 3, withOps: 0.0})
+	case "C02":
+		return genMix(prop, seed, run, mixOpts{lagfree: 0.25, apiChurn: 0.3, shapes: allShapes, overflow: 0.05, maxOps: 36, watchFiles: 0.4, worldTasks: 2})
+	case "C03":
+		return genMix(prop, seed, run, mixOpts{lagfree: 0.2, apiChurn: 0.05, shapes: []int{0, 1}, maxOps: 40, watchFiles: 0.4, worldTasks: 1})
+	case "C08":
+		return genMix(prop, seed, run, mixOpts{lagfree: 0.3, apiChurn: 0.15, spellings: true, shapes: []int{1, 1, 1, 2, 3, 4, 0}, maxOps: 30, watchFiles: 0.4, worldTasks: 2})
+	case "C04":
+		if pick < 80 {
+			return genAPI(prop, seed, run, tier)
+		}
+		return genMix(prop, seed, run, mixOpts{lagfree: 0.5, apiChurn: 0.5, spellings: true, shapes: []int{0, 1}, maxOps: 24, watchFiles: 0.5, worldTasks: 1, faultAdd: 0.3})
+	case "C05":
+		return genPending(prop, seed, run, tier)
+	case "C06":
+		return genClose(prop, seed, run, tier)
+	case "C13":
+		return genClose(prop, seed, run, tier)
+	case "C07":
+		return genConc(prop, seed, run, tier)
+	case "C09":
+		return genLifecycle(prop, seed, run, tier, 0, 0)
+	case "C10":
+		if pick < 70 {
+			return genLifecycle(prop, seed, run, tier, 0, 0.25)
+		}
+		return genMix(prop, seed, run, mixOpts{lagfree: 0.1, apiChurn: 0.15, shapes: []int{0, 1}, overflow: 0.5, maxOps: 40, watchFiles: 0.5, worldTasks: 2})
+	case "C11":
+		return genRename(prop, seed, run, tier)
+	case "C12":
+		if pick < 60 {
+			c := 0
+			if tier == "thorough" && pick < 5 {
+				c = 50
+			}
+			return genLifecycle(prop, seed, run, tier, c, 0)
+		}
+		return genAPI(prop, seed, run, tier)
+	case "C14":
+		return genMulti(prop, seed, run, tier)
+	case "C19":
+		return genRecurse(prop, seed, run, tier)
 	}
+	return nil
 }
